@@ -307,7 +307,9 @@ func (g *gen) snippet() {
 		b.Push(uint64(g.r.Intn(300))).Op(asm.CALL)
 		g.sink()
 	case x < 82: // return data must be the callee's bytes, not a window onto the caller's memory
-		if f >= 4 && !g.o.NoGasObserve {
+		if f >= 4 && g.hasContextWriter() && g.r.Intn(3) == 0 {
+			g.contextWrite()
+		} else if f >= 4 && !g.o.NoGasObserve {
 			g.returnDataProbe()
 		} else {
 			g.call()
@@ -420,6 +422,10 @@ func (g *gen) journal() {
 func (g *gen) call() {
 	b := g.b
 	f := g.o.Fork
+	if f >= 4 && g.hasContextWriter() && g.r.Intn(10) == 0 {
+		g.contextWrite()
+		return
+	}
 	target := g.anyAddr()
 	insz, inoff := uint64(g.r.Intn(70)), g.memOff()
 	outsz, outoff := uint64(g.r.Intn(70)), g.memOff()
@@ -454,6 +460,44 @@ func (g *gen) call() {
 	}
 	b.Op([]byte{asm.CALL, asm.CALLCODE, asm.DELEGATECALL, asm.STATICCALL}[kind])
 	g.sink()
+}
+
+func (g *gen) hasContextWriter() bool {
+	for _, a := range g.u.Precomp {
+		if a == common.BigToAddress(big.NewInt(0x66)) {
+			return true
+		}
+	}
+	return false
+}
+
+// contextWrite: a well-formed (bytes key, bytes value) payload sent to the context-write precompile 0x66 through
+// one or two of the four call kinds. Only a plain CALL carries a call context; the other kinds must fail, whatever
+// ran before in this process.
+func (g *gen) contextWrite() {
+	b := g.b
+	word := func(v uint64) []byte { return common.LeftPadBytes(new(big.Int).SetUint64(v).Bytes(), 32) }
+	key, val := g.r.Bytes(1+g.r.Intn(8)), g.r.Bytes(g.r.Intn(20))
+	var payload []byte
+	payload = append(payload, word(0x40)...)
+	payload = append(payload, word(0x80)...)
+	payload = append(payload, word(uint64(len(key)))...)
+	payload = append(payload, common.RightPadBytes(key, 32)...)
+	payload = append(payload, word(uint64(len(val)))...)
+	payload = append(payload, common.RightPadBytes(val, 32)...)
+	const at = 0x300
+	b.MstoreBytes(at, payload)
+	n := 1 + g.r.Intn(2)
+	for i := 0; i < n; i++ {
+		kind := g.r.Intn(4)
+		b.Push(0).Push(0).Push(uint64(len(payload))).Push(at)
+		if kind == 0 || kind == 1 {
+			b.Push(0)
+		}
+		b.PushAddr(common.BigToAddress(big.NewInt(0x66))).Push(uint64(20000 + g.r.Intn(20000)))
+		b.Op([]byte{asm.CALL, asm.CALLCODE, asm.DELEGATECALL, asm.STATICCALL}[kind])
+		g.sink()
+	}
 }
 
 // returnDataProbe: fill an input region, call something (often a precompile) with it, overwrite the region,
